@@ -19,9 +19,15 @@ sys.path.insert(0, os.path.dirname(os.path.abspath(__file__)))
 from bounded import K, Boom, seqs, canon_id      # noqa: E402
 
 
+class Cancel(BaseException):
+    """stands for asyncio.CancelledError & co.: not an Exception"""
+
+
 class Src:
-    def __init__(self, items, fail_at=None):
+    def __init__(self, items, fail_at=None, fail_with=None):
         self.items, self.fail_at, self.i, self.exc = items, fail_at, 0, None
+        self.fail_with = fail_with or Boom
+        self.closed, self.ended = 0, False
 
     def __iter__(self):
         return self
@@ -30,16 +36,21 @@ class Src:
         i = self.i
         self.i += 1
         if self.fail_at == i:
-            self.exc = Boom("src")
+            self.exc = self.fail_with("src")
             raise self.exc
         if i >= len(self.items):
+            self.ended = True
             raise StopIteration
         return self.items[i]
 
 
 class ASrc(Src):
+    """class-based async iterator with aclose: stays open when an exception passes through it"""
     def __aiter__(self):
         return self
+
+    async def aclose(self):
+        self.closed += 1
 
     async def __anext__(self):
         try:
@@ -49,14 +60,15 @@ class ASrc(Src):
 
 
 class Fn:
-    def __init__(self, f, fail_at=None):
+    def __init__(self, f, fail_at=None, fail_with=None):
         self.f, self.fail_at, self.n, self.exc = f, fail_at, 0, None
+        self.fail_with = fail_with or Boom
 
     def __call__(self, *a):
         n = self.n
         self.n += 1
         if self.fail_at == n:
-            self.exc = Boom("fn")
+            self.exc = self.fail_with("fn")
             raise self.exc
         return self.f(*a)
 
@@ -69,7 +81,7 @@ def aflavour(fn):
 
 def outcome_exc(e, objs):
     mine = [o.exc for o in objs if getattr(o, "exc", None) is not None]
-    return ("raise", type(e).__name__, "same-object" if any(e is m for m in mine) else ("foreign" if mine and isinstance(e, Boom) else "-"))
+    return ("raise", type(e).__name__, "same-object" if any(e is m for m in mine) else ("foreign" if mine and isinstance(e, (Boom, Cancel)) else "-"))
 
 
 def run_sync(call, kind, steps, objs):
@@ -186,7 +198,7 @@ def diff(name, tier="quick"):
     maxlen = 3 if tier == "quick" else 4
     lists = seqs(maxlen)
     short = seqs(2)
-    cases, bad = 0, []
+    cases, bad, leaks, cleaks = 0, [], [], []
     for label, nsrc, build in variants(name):
         for ks in lists:
             for kb in (short if nsrc == 2 else [[]]):
@@ -226,11 +238,37 @@ def diff(name, tier="quick"):
                                     continue
                                 got = run_async(lambda: afn(*args, **kw), kind, steps, srcs + fns)
                                 cases += 1
+                                where = (f"{name}[{label}] items={A}{' / ' + str(B) if nsrc == 2 else ''} source fails at {sfail}, callable fails at {cfail}, "
+                                         f"{steps} steps, {sflav} source, {fflav} callable")
                                 if got != want and len(bad) < 6:
-                                    bad.append(f"{name}[{label}] items={A}{' / ' + str(B) if nsrc == 2 else ''} source fails at {sfail}, callable fails at {cfail}, "
-                                               f"{steps} steps, {sflav} source, {fflav} callable: asyncstdlib {got} vs CPython {want}")
-    return {"function": name, "cases": cases, "violations": bad,
-            "bound": f"keys {{0,1,2}}, lengths 0..{maxlen} (second source 0..2), one fault per run, sync/async flavours; outputs and ending compared, not the order of requests"}
+                                    bad.append(f"{where}: asyncstdlib {got} vs CPython {want}")
+                                if sflav == "async" and not (kind == "gen" and steps == 0):
+                                    # (a generator-based tool that was never advanced owns nothing yet)
+                                    used = srcs[:nsrc]
+                                    open_ = [i for i, sr in enumerate(used) if not sr.closed and not sr.ended]
+                                    if open_ and len(leaks) < 6:
+                                        leaks.append(f"{where}: source(s) {open_} neither exhausted nor closed when the call/iterator was finished (ended {got[1]})")
+                                    # the same run with a cancellation (a BaseException) instead of the failure
+                                    if sfail is not None or cfail is not None:
+                                        srcs = [ASrc(A, sfail, Cancel), ASrc(B)]
+                                        fns = []
+                                        def F(f):
+                                            fns.append(Fn(f, cfail, Cancel))
+                                            return aflavour(fns[-1]) if fflav == "async" else fns[-1]
+                                        args, kw = build(srcs, F)
+                                        got2 = run_async(lambda: afn(*args, **kw), kind, steps, srcs + fns)
+                                        cases += 1
+                                        raised = any(getattr(o, "exc", None) is not None for o in srcs + fns)
+                                        open_ = [i for i, sr in enumerate(srcs[:nsrc]) if not sr.closed and not sr.ended]
+                                        if open_ and len(cleaks) < 6:
+                                            cleaks.append(f"{where} [cancellation instead of the failure]: source(s) {open_} neither exhausted nor closed afterwards (ended {got2[1]})")
+                                        if raised and got2[1][:1] == ("raise",) and got2[1][2] != "same-object" and len(cleaks) < 6:
+                                            cleaks.append(f"{where} [cancellation instead of the failure]: the cancellation did not propagate unchanged: {got2[1]}")
+                                        if raised and got2[1][:1] != ("raise",) and kind == "coro" and len(cleaks) < 6:
+                                            cleaks.append(f"{where} [cancellation instead of the failure]: the cancellation was swallowed: {got2[1]}")
+    return {"function": name, "cases": cases, "violations": bad, "leaks": leaks, "cancellation": cleaks,
+            "bound": f"keys {{0,1,2}}, lengths 0..{maxlen} (second source 0..2), one fault per run (failure or cancellation), sync/async flavours; outputs, "
+                     f"ending and release of class-based async sources compared/checked, not the order of requests"}
 
 
 if __name__ == "__main__":
